@@ -560,6 +560,12 @@ func GenBigExpr(r *Rng) *Expr {
 		filt(strs, mkS(KBin, "!=", cur, &Expr{K: KStr, S: "x"}), nil),
 		fn("contains", nums, num("7")),
 		mk(KPipe, proj(recs, field("vals")), &Expr{K: KFlat, C: []*Expr{nil, nil}}),
+		// enumeration of many short-lived temporaries (their addresses get reused
+		// when a collection runs in the middle of the evaluation)
+		proj(recs, fn("keys", fn("merge", cur, cur))),
+		proj(recs, fn("sort", fn("keys", fn("merge", cur, &Expr{K: KHash, Keys: []string{"extra"}, C: []*Expr{field("id")}})))),
+		proj(recs, fn("length", fn("values", fn("merge", cur, field("pt"))))),
+		fn("map", ref(fn("items", &Expr{K: KHash, Keys: []string{"k", "v"}, C: []*Expr{field("name"), field("id")}})), recs),
 	}
 	e := pick(r, c)
 	if r.P(1, 3) {
